@@ -51,6 +51,7 @@ type kinst struct {
 }
 
 type setWorld struct {
+	baseIvl int64       // interval of the constant backoffs (0: retry at once)
 	growing bool        // retry configured as a growing exponential backoff (per routine object)
 	streak  map[int]int // token -> failed exits since the routine object's last success
 	c       *core.Ctx
@@ -129,7 +130,7 @@ func (w *setWorld) ctor(key string) (keyed.Routine, int) {
 		in.err = err
 		in.liveExit = ctx.Err() == nil
 		in.exitAt = c.S.Now()
-		in.ivl = retryNs
+		in.ivl = w.baseIvl
 		if w.growing && in.liveExit {
 			// each routine object has its own backoff: 1x, 2x, 4x, 4x, … the base interval, reset by a success
 			if err == nil {
@@ -583,7 +584,7 @@ func (w *setWorld) checkRetries() {
 }
 
 func runSet(c *core.Ctx) {
-	w := &setWorld{c: c, model: map[string]*mEntry{}, byTok: map[int]*mEntry{}, due: map[string]*kinst{}, instOf: map[int]*kinst{}, streak: map[int]int{}, voided: map[*kinst]bool{}}
+	w := &setWorld{c: c, model: map[string]*mEntry{}, byTok: map[int]*mEntry{}, due: map[string]*kinst{}, instOf: map[int]*kinst{}, streak: map[int]int{}, baseIvl: retryNs, voided: map[*kinst]bool{}}
 	c.PanicOracle = "C06.P.panic"
 	if c.S.PlanP(550) {
 		w.delay = delayNs
@@ -610,6 +611,10 @@ func runSet(c *core.Ctx) {
 	} else if w.retry && c.S.PlanP(400) {
 		// the same interval through the library's own backoff configuration
 		opts = append(opts, keyed.WithRetry[string, int](&ubackoff.Backoff{BackoffKind: ubackoff.BackoffKind_BackoffKind_CONSTANT, Constant: &ubackoff.Constant{Interval: uint32(retryNs / 1e6)}}))
+	} else if w.retry && c.S.PlanP(150) {
+		// a backoff whose interval is zero (retry at once) is as legal as any other
+		w.baseIvl = 0
+		opts = append(opts, keyed.WithBackoff[string, int](func(string) cbackoff.BackOff { return &constBackoff{0} }))
 	} else if w.retry {
 		opts = append(opts, keyed.WithBackoff[string, int](func(string) cbackoff.BackOff { return &constBackoff{time.Duration(retryNs)} }))
 	}
